@@ -56,6 +56,15 @@ def main():
         sh("git -C /repo worktree remove --force %s" % wt)
         shutil.rmtree(scratch, ignore_errors=True)
     os.makedirs(os.path.join(VERIF, "evidence"), exist_ok=True)
+    # a partial run (seed ids given) replaces only those rows of the stored result
+    outp = os.path.join(VERIF, "evidence", "selftest_%s.json" % tier)
+    if only and os.path.exists(outp):
+        try:
+            old = json.load(open(outp))["results"]
+        except Exception:
+            old = []
+        done = set(r["seed"] for r in results)
+        results = sorted([r for r in old if r["seed"] not in done] + results, key=lambda r: r["seed"])
     json.dump(dict(tier=tier, at=time.strftime("%Y-%m-%dT%H:%M:%SZ", time.gmtime()), results=results,
                    caught=sum(1 for r in results if r.get("caught_by")), total=len(results)),
               open(os.path.join(VERIF, "evidence", "selftest_%s.json" % tier), "w"), indent=1)
